@@ -1,13 +1,16 @@
 (* driver.ml — runs the extracted code-generation model (codegen_model.ml) for the correspondence checks of C01.
    One request per input line, one answer per output line.  Strings travel hex-encoded (Latin-1).
-     G <hex>     program_of_script   -> N | J:<json>   json = {"names":[hex,...],"prog":[stmt,...]} with
+     G <hex>     program_of_script_checked   -> N | T | J:<json>   (T: program_of_script accepts the script but some statement
+                 is not read back from its code text: code_agrees fails — a tie failure, to be reported)   json = {"names":[hex,...],"prog":[stmt,...]} with
                  stmt = ["assign",row,k,expr], expr = ["num",literal-hex] | ["read",row,k] | ["neg",e] | ["abs",e]
                  | ["bin",op,a,b] | ["max",a,b] | ["min",a,b] | ["call1",f,e] | ["if",cmp,l,r,a,b]   (the JSON form of harness/evalmodel.py)
      X <hex>     per statement of split_M: code_text and equation_text (the specification strings of CodeGen.v)
                  and whether the guard of the text-level theorem holds (aligned, no brace outside a match)
                  -> X:<code or ->,<equation or ->,<1|0>;...|<split error or ->
      B <hex>     the `{equations}` block of the class text build_model_definition generates (CodeGenBlock.v)  -> B:<hex> | N
-     L <hex>     lex_items of one statement -> token list (debugging aid) *)
+     L <hex>     lex_items of one statement -> token list (debugging aid)
+     TS <hex>    per statement of split_M: tight_statement (the hypothesis of CodeGenFacts15.code_statement_tie) -> TS:<1|0>...
+     LC <hex>    lex_code of one code text -> token list (debugging aid) *)
 open Codegen_model
 
 let explode (s : string) : char list = List.init (String.length s) (String.get s)
@@ -20,6 +23,7 @@ let hv c = match c with '0'..'9' -> Char.code c - 48 | 'a'..'f' -> Char.code c -
 let unhex (h : string) : char list =
   List.init (String.length h / 2) (fun i -> Char.chr (16 * hv h.[2*i] + hv h.[2*i+1]))
 let rec int_of_nat = function O -> 0 | S n -> 1 + int_of_nat n
+let rec nat_of_int n = if n <= 0 then O else S (nat_of_int (n - 1))
 let z_s z = implode (string_of_Z z)
 
 let binop_s = function OAdd -> "add" | OSub -> "sub" | OMul -> "mul" | ODiv -> "div" | OPow -> "pow"
@@ -55,8 +59,8 @@ let tok_s = function
 let answer (line : string) : unit =
   match String.split_on_char ' ' line with
   | ["G"; h] ->
-    (match program_of_script (unhex h) with
-     | None -> print_endline "N"
+    (match program_of_script_checked (unhex h) with
+     | None -> print_endline (match program_of_script (unhex h) with None -> "N" | Some _ -> "T")
      | Some (names, prog) ->
        print_endline (Printf.sprintf "J:{\"names\":[%s],\"prog\":[%s]}"
                         (String.concat "," (List.map (fun n -> "\"" ^ hex n ^ "\"") names))
@@ -66,6 +70,10 @@ let answer (line : string) : unit =
     let one st = opt_s (code_text st) ^ "," ^ opt_s (equation_text st) ^ "," ^ (if text_guard st then "1" else "0") in
     print_endline ("X:" ^ String.concat ";" (List.map one stmts) ^ "|" ^ (match err with None -> "-" | Some e -> exn_name e))
   | ["B"; h] -> print_endline (match block_of_script (unhex h) with Some b -> "B:" ^ hex b | None -> "N")
+  | ["TS"; h] ->
+    let (stmts, _) = split_M (unhex h) in
+    print_endline ("TS:" ^ String.concat "" (List.map (fun st -> if tight_statement st then "1" else "0") stmts))
+  | ["LC"; h] -> let c = unhex h in print_endline (String.concat " " (List.map tok_s (lex_code (nat_of_int (List.length c + 1)) c)))
   | ["L"; h] -> print_endline (String.concat " " (List.map tok_s (lex_items LNone (scan_items (unhex h)))))
   | _ -> print_endline "?"
 
